@@ -81,3 +81,13 @@ func lemmaConflictsSymmetric(a, b ColumnType) (x, y bool) {
 func lemmaConflictsReflexive(a ColumnType) (x bool) {
 	return a.Conflicts(a)
 }
+
+// lemmaColFixedStrRoundTrip: FixedString(N) rows survive encode -> decode into a column of the same N.
+func lemmaColFixedStrRoundTrip(x ColFixedStr) (y ColFixedStr, r *Reader, err error) {
+	b := new(Buffer)
+	x.EncodeColumn(b)
+	r = b.Reader()
+	y.Size = x.Size
+	err = y.DecodeColumn(r, x.Rows())
+	return
+}
